@@ -153,3 +153,138 @@ Proof.
     + cbn [ep_func]. exists utrue. apply fspec_rename_f; [eapply module_wf_entry; eauto|].
       intros x Hx. specialize (Hcl1 e (nth_error_In _ _ Hn)). rewrite forallb_forall in Hcl1. apply Hcl1. exact Hx.
 Qed.
+
+(* ====================================================================== *)
+(* The work-list computation of the live functions is call-closed           *)
+
+Fixpoint cost (fs : list func) (i : nat) (uf : uset) : nat :=
+  match fs with
+  | [] => 0
+  | f :: fs' => (if uget uf i then 0 else S (List.length (block_calls (f_body f)))) + cost fs' (S i) uf
+  end.
+
+Lemma cost_mark_other fs i uf k : k < i -> cost fs i (mark uf k) = cost fs i uf.
+Proof.
+  revert i. induction fs as [|f fs IH]; intros i Hk; cbn [cost]; [reflexivity|].
+  rewrite IH by lia. unfold mark. rewrite uget_set_true.
+  replace (Nat.eqb i k) with false by (symmetry; apply Nat.eqb_neq; lia). reflexivity.
+Qed.
+
+Lemma cost_mark fs i uf k f :
+  nth_error fs k = Some f -> uget uf (i + k) = false -> i + k < List.length uf ->
+  cost fs i (mark uf (i + k)) + S (List.length (block_calls (f_body f))) = cost fs i uf.
+Proof.
+  revert i k. induction fs as [|g fs IH]; intros i k Hn Hu Hlt.
+  - destruct k; discriminate.
+  - destruct k as [|k]; cbn [cost].
+    + cbn in Hn. inversion Hn; subst. rewrite Nat.add_0_r in *.
+      rewrite cost_mark_other by lia. unfold mark. rewrite uget_set_true, Nat.eqb_refl.
+      replace (Nat.ltb i (List.length uf)) with true by (symmetry; apply Nat.ltb_lt; exact Hlt).
+      cbn. rewrite Hu. lia.
+    + cbn in Hn. replace (i + S k) with (S i + k) in * by lia.
+      specialize (IH (S i) k Hn Hu Hlt).
+      unfold mark in *. rewrite uget_set_true.
+      replace (Nat.eqb i (S i + k)) with false by (symmetry; apply Nat.eqb_neq; lia). cbn [andb orb]. lia.
+Qed.
+
+Section Reach.
+Variable fs : list func.
+Let F := List.length fs.
+Definition callees (fn : nat) : list nat :=
+  match nth_error fs fn with Some f => block_calls (f_body f) | None => [] end.
+
+(* callees of marked functions are marked or pending; so are the items of the initial work list *)
+Definition rinv (w0 : list nat) (uf : uset) (work : list nat) : Prop :=
+  (forall fn c, uget uf fn = true -> In c (callees fn) -> c < F -> uget uf c = true \/ In c work)
+  /\ (forall c, In c w0 -> c < F -> uget uf c = true \/ In c work).
+
+Definition rclosed (w0 : list nat) (uf : uset) : Prop :=
+  (forall fn c, uget uf fn = true -> In c (callees fn) -> c < F -> uget uf c = true)
+  /\ (forall c, In c w0 -> c < F -> uget uf c = true).
+
+Lemma reach_closed w0 : forall fuel uf work,
+  List.length uf = F -> List.length work + cost fs 0 uf < fuel -> rinv w0 uf work ->
+  rclosed w0 (reach fuel fs uf work).
+Proof.
+  induction fuel as [|fuel IH]; intros uf work Hlen Hfuel (I1 & I2); [lia|].
+  cbn [reach]. destruct work as [|fn rest].
+  - split.
+    + intros g c Hg Hc Hlt. destruct (I1 g c Hg Hc Hlt) as [H|[]]. exact H.
+    + intros c Hc Hlt. destruct (I2 c Hc Hlt) as [H|[]]. exact H.
+  - destruct (Nat.ltb fn (List.length uf) && negb (uget uf fn))%bool eqn:E.
+    + apply andb_true_iff in E. destruct E as [E1 E2]. apply Nat.ltb_lt in E1. apply negb_true_iff in E2.
+      assert (Hfn : fn < F) by lia.
+      destruct (nth_error fs fn) as [f|] eqn:Ef; [|apply nth_error_None in Ef; unfold F in Hfn; lia].
+      assert (Hcost : cost fs 0 (mark uf fn) + S (List.length (block_calls (f_body f))) = cost fs 0 uf)
+        by (apply (cost_mark fs 0 uf fn f Ef); cbn; auto).
+      apply IH.
+      * unfold mark. rewrite set_true_length. exact Hlen.
+      * rewrite app_length. cbn [List.length] in Hfuel. lia.
+      * split.
+        -- intros g c Hg Hc Hlt. unfold mark in Hg |- *. rewrite uget_set_true in Hg |- *.
+           destruct (Nat.eqb g fn) eqn:Eg.
+           ++ apply Nat.eqb_eq in Eg. subst g. right. apply in_or_app. left.
+              unfold callees in Hc. rewrite Ef in Hc. exact Hc.
+           ++ cbn [andb orb] in Hg. destruct (I1 g c Hg Hc Hlt) as [H|[H|H]].
+              ** left. rewrite H. apply orb_true_r.
+              ** subst c. left. rewrite Nat.eqb_refl. replace (Nat.ltb fn (List.length uf)) with true by (symmetry; apply Nat.ltb_lt; exact E1). reflexivity.
+              ** right. apply in_or_app. right. exact H.
+        -- intros c Hc Hlt. unfold mark. rewrite uget_set_true. destruct (I2 c Hc Hlt) as [H|[H|H]].
+           ++ left. rewrite H. apply orb_true_r.
+           ++ subst c. left. rewrite Nat.eqb_refl. replace (Nat.ltb fn (List.length uf)) with true by (symmetry; apply Nat.ltb_lt; exact E1). reflexivity.
+           ++ right. apply in_or_app. right. exact H.
+    + apply IH; [exact Hlen|cbn [List.length] in Hfuel; lia|].
+      assert (Hskip : fn < F -> uget uf fn = true).
+      { intro Hlt. apply andb_false_iff in E. destruct E as [E|E].
+        - apply Nat.ltb_ge in E. lia.
+        - apply negb_false_iff in E. exact E. }
+      split.
+      * intros g c Hg Hc Hlt. destruct (I1 g c Hg Hc Hlt) as [H|[H|H]]; auto. subst c. left. apply Hskip. exact Hlt.
+      * intros c Hc Hlt. destruct (I2 c Hc Hlt) as [H|[H|H]]; auto. subst c. left. apply Hskip. exact Hlt.
+Qed.
+
+Lemma cost_all_false : forall l i n, cost l i (repeat false n) = fold_right (fun f a => S (List.length (block_calls (f_body f))) + a) 0 l.
+Proof.
+  induction l as [|f l IH]; intros i n; cbn [cost fold_right]; [reflexivity|].
+  rewrite uget_repeat_false, IH. reflexivity.
+Qed.
+End Reach.
+
+Definition calls_in_rangeb (m : module) : bool :=
+  forallb (fun f => forallb (fun c => Nat.ltb c (List.length (m_functions m))) (block_calls (f_body f))) (all_funcs m).
+
+Lemma used_functions_closed m :
+  calls_in_rangeb m = true -> calls_closedb m (used_functions m) = true.
+Proof.
+  intro Hr. unfold calls_in_rangeb in Hr. rewrite forallb_forall in Hr.
+  set (w0 := flat_map (fun e => block_calls (f_body (ep_func e))) (m_entry_points m)).
+  assert (Hc : rclosed (m_functions m) w0 (used_functions m)).
+  { unfold used_functions. fold w0. apply reach_closed.
+    - apply repeat_length.
+    - unfold reach_fuel. rewrite cost_all_false. lia.
+    - split; intros; right; auto. rewrite uget_repeat_false in H. discriminate. }
+  destruct Hc as (C1 & C2).
+  unfold calls_closedb. apply andb_true_iff. split; apply forallb_forall.
+  - intros e He. apply forallb_forall. intros c Hc. apply C2.
+    + unfold w0. apply in_flat_map. exists e. split; assumption.
+    + assert (Hf : In (ep_func e) (all_funcs m)) by (unfold all_funcs; apply in_or_app; right; apply in_map; exact He).
+      specialize (Hr _ Hf). rewrite forallb_forall in Hr. apply Nat.ltb_lt. apply Hr. exact Hc.
+  - intros f Hf. apply forallb_forall. intros c Hc.
+    apply In_nth_error in Hf. destruct Hf as (j & Hj).
+    destruct (keep_nth_inv _ _ _ _ Hj) as (k & Hk & Hu & _).
+    apply (C1 k c Hu).
+    + unfold callees. rewrite Hk. exact Hc.
+    + assert (Hf : In f (all_funcs m)) by (unfold all_funcs; apply in_or_app; left; eapply nth_error_In; eauto).
+      specialize (Hr _ Hf). rewrite forallb_forall in Hr. apply Nat.ltb_lt. apply Hr. exact Hc.
+Qed.
+
+(* removal of unreachable functions: no side condition on the live-set computation left *)
+Theorem compact_unused_functions_sound m :
+  module_wf m -> calls_in_rangeb m = true ->
+  all_true (used_globals m (used_functions m)) = true ->
+  forall fuel ep gs args res,
+    run_entry fuel m ep gs args = Done res ->
+    run_entry fuel (compact_unused m) ep gs args = Done res.
+Proof.
+  intros Hwf Hr Hg. apply compact_unused_sound_partial; auto. apply used_functions_closed. exact Hr.
+Qed.
